@@ -444,12 +444,13 @@ fn merge_tables(
                         .collect::<Vec<_>>(),
                 );
 
-                let scanner = BlobFileMergeScanner::new(
-                    blob_files_to_rewrite
-                        .iter()
-                        .map(|bf| BlobFileScanner::new(&bf.0.path, bf.id()))
-                        .collect::<crate::Result<Vec<_>>>()?,
-                );
+                let scanners = blob_files_to_rewrite
+                    .iter()
+                    .map(|bf| {
+                        let scanner = BlobFileScanner::new(&bf.0.path, bf.id())?;
+                        Ok((bf.id(), BlobFileMergeScanner::new(vec![scanner]).peekable()))
+                    })
+                    .collect::<crate::Result<crate::HashMap<_, _>>>()?;
 
                 let writer = BlobFileWriter::new(
                     opts.blob_file_id_generator.clone(),
@@ -468,7 +469,7 @@ fn merge_tables(
 
                 Box::new(RelocatingCompaction::new(
                     inner,
-                    scanner.peekable(),
+                    scanners,
                     writer,
                     blob_files_to_rewrite,
                 ))
